@@ -480,3 +480,68 @@ def threesum_graphic_cographic(rng, n1=None, g2=None, drop=None, perm=True):
     if perm:
         R = permute(rng, R)
     return R
+
+
+# ---------------------------------------------------------------------------------------------------------------
+# ternary presentations of regular matroids: Camion-signed by the library itself (api tu_signed echoes the signed
+# matrix), then pivoted / permuted / scaled here.  Nothing about these seeds is trusted: judges compare every
+# presentation with the oracle (C01) or only with each other (C10).
+
+def ternary_pivot(M, r, c):
+    m, n = len(M), len(M[0])
+    pv = M[r][c]
+    N = [[0] * n for _ in range(m)]
+    for i in range(m):
+        for j in range(n):
+            if i == r and j == c:
+                v = -pv
+            elif i == r or j == c:
+                v = -M[i][j] if pv == -1 else M[i][j]
+            else:
+                v = M[i][j] - pv * M[i][c] * M[r][j]
+            v = ((v % 3) + 3) % 3
+            N[i][j] = -1 if v == 2 else v
+    return N
+
+
+def library_signed(exe, mats):
+    """Camion-signed versions of 0/1 matrices, as computed by the library under test (parsed from tu_signed records)"""
+    import vlib
+    lines = [cfg_line(cfg()) + " " + vlib.mat_line(M) for M in mats]
+    recs, _ = vlib.run_drive(exe, "tu_signed", lines)
+    out = []
+    for M, r in zip(mats, recs):
+        if r is None:
+            continue
+        t = [int(x) for x in r.split()]
+        pos = 1 + t[0]
+        m, n = t[pos], t[pos + 1]
+        ent = t[pos + 2: pos + 2 + m * n]
+        if m != len(M) or n != len(M[0]) or len(ent) != m * n:
+            continue
+        out.append([ent[i * n:(i + 1) * n] for i in range(m)])
+    return out
+
+
+def deep_binary_seeds(rng, count, maxcells=None):
+    out = [[r[:] for r in R12], [r[:] for r in R10], [[abs(x) for x in r] for r in R10_CYC]]
+    tries = 0
+    while len(out) < count and tries < 40 * count:
+        tries += 1
+        M = threesum_graphic_cographic(rng)
+        if M and (maxcells is None or len(M) * len(M[0]) <= maxcells):
+            out.append(M)
+    return [[[abs(x) for x in r] for r in M] for M in out]
+
+
+def pivoted_presentation(rng, M, npiv):
+    for _ in range(npiv):
+        nz = [(i, j) for i in range(len(M)) for j in range(len(M[0])) if M[i][j] != 0]
+        if not nz:
+            break
+        r, c = rng.choice(nz)
+        M = ternary_pivot(M, r, c)
+    M = permute(rng, M)
+    if rng.below(2):
+        M = scale(rng, M)
+    return M
